@@ -1046,6 +1046,27 @@ impl ReCompiler {
     }
 }
 
+// Verification hooks (add-only, `cargo kani` only): plain forwarders and field
+// accessors for the harness module; no logic of their own.
+#[cfg(kani)]
+impl ReCompiler {
+    pub(crate) fn verif_bracket(&mut self) -> Result<(), Error> {
+        self.bracket()
+    }
+
+    pub(crate) fn verif_idx(&self) -> usize {
+        self.idx
+    }
+
+    pub(crate) fn verif_set_idx(&mut self, idx: usize) {
+        self.idx = idx;
+    }
+
+    pub(crate) fn verif_bracket_bounds(&self) -> (usize, usize) {
+        (self.bracket_min, self.bracket_max)
+    }
+}
+
 #[cfg(test)]
 mod tests {
     use insta::assert_debug_snapshot;
